@@ -36,6 +36,7 @@ fn main() -> ExitCode {
         "C06" => rosu_verif::c06::run(tier, seed, only),
         "C07" => rosu_verif::c07::run(tier, seed, only),
         "C08" => rosu_verif::c08::run(tier, seed, only),
+        "C09" => rosu_verif::c09::run(tier, seed, only),
         "C10" => rosu_verif::c10::run(tier, seed, only),
         "C11" => rosu_verif::c11::run(tier, seed, only),
         "C12" => rosu_verif::c12::run(tier, seed, only),
